@@ -10,7 +10,7 @@ from .ctx import Ctx
 from .model import AnalysisError, ClassInfo
 from .report import RuleResult, VERIF
 from .rules_lattice import flagset
-from .terms import (Attr, Call, ClassRef, Const, Default, DictT, EnumMember, Ext, GlobalVal, New, Op, Outcome, Sym,
+from .terms import (Attr, Call, ClassRef, Const, Default, DictT, EnumMember, Ext, FuncRef, GlobalVal, New, Op, Outcome, Sym,
                     Term, TupleT, _State, guards_repr, norm_guards, unglobal, walk)
 
 
@@ -267,6 +267,14 @@ def inverse_table(ctx: Ctx) -> Tuple[Dict[str, str], Any]:
     if 'INVERSE_OPERATORS' not in mod.assigns:
         raise AnalysisError('T4', 'hpl.rewrite.INVERSE_OPERATORS not found (anchor vanished)')
     t = unglobal(ctx.ev.global_term(mod, 'INVERSE_OPERATORS'))
+    if isinstance(t, Call) and isinstance(t.func, FuncRef) and not t.args and not t.kwargs:
+        # the table is built by a function at import time: the value that function returns
+        from .terms import Evaluator, helper_inline
+        bf = ctx.ev.callee(t.func)
+        if bf is not None:
+            bouts = [o for o in Evaluator(ctx.model, inline=helper_inline(('hpl.rewrite',))).run(bf) if o.kind == 'return']
+            if len(bouts) == 1:
+                t = unglobal(bouts[0].value)
     if not isinstance(t, DictT):
         raise AnalysisError('T4', f'INVERSE_OPERATORS is not a dict display: {str(t)[:80]}')
     out: Dict[str, str] = {}
